@@ -107,6 +107,7 @@ type Handle struct {
 	Range  []string // iterators: frozen key sequence
 	Uni    *Universe
 	Born   int // step index
+	ParID  int // handle this one was opened from (0 = none)
 	// Outlived events
 	SawCompaction, SawCollClose, SawStoreClose, SawUnlink bool
 	Closed                                                bool
@@ -226,6 +227,27 @@ func (r *Runner) cleanup() {
 	r.E.D.Detach()
 }
 
+// closeWithDependents closes a handle.  Iterators and child snapshots
+// opened from a collection snapshot are closed before it: the property
+// promises them only while their snapshot is open.  Iterators opened on
+// a store snapshot hold their own reference on the footer and are left
+// open.
+func (r *Runner) closeWithDependents(id int) {
+	h := r.handles[id]
+	if h == nil {
+		return
+	}
+	if h.Kind != "ssnap" {
+		for cid, c := range r.handles {
+			if c.ParID == id && cid != id {
+				r.closeWithDependents(cid)
+			}
+		}
+	}
+	r.closeHandle(h)
+	delete(r.handles, id)
+}
+
 func (r *Runner) closeHandle(h *Handle) {
 	if h.Closed {
 		return
@@ -318,10 +340,7 @@ func (r *Runner) doStep(st Step) bool {
 	case "snap", "ssnap", "csnap", "iter":
 		return r.openHandle(st)
 	case "closeh":
-		if h := r.handles[st.H]; h != nil {
-			r.closeHandle(h)
-			delete(r.handles, st.H)
-		}
+		r.closeWithDependents(st.H)
 	case "closecoll":
 		r.resumeAll()
 		if e.Coll != nil {
@@ -735,6 +754,9 @@ func (r *Runner) checkPaths() {
 func (r *Runner) openHandle(st Step) bool {
 	e := r.E
 	h := &Handle{Kind: st.K, Born: r.step, Uni: NewUniverse()}
+	if st.K == "csnap" || st.K == "iter" {
+		h.ParID = st.Par
+	}
 	switch st.K {
 	case "snap":
 		if e.Coll == nil {
@@ -821,7 +843,7 @@ func (r *Runner) openHandle(st Step) bool {
 		h.Uni.Add(nil, k)
 	}
 	if old := r.handles[st.H]; old != nil {
-		r.closeHandle(old)
+		r.closeWithDependents(st.H)
 	}
 	r.handles[st.H] = h
 	r.cnt("handles.opened."+st.K, 1)
@@ -955,6 +977,9 @@ func (r *Runner) finishIter(id int, h *Handle) {
 			}
 			for i := 0; i < len(h.Range); i++ {
 				k, v, err := h.Iter.Current()
+				if Trace {
+					fmt.Printf("  finishIter #%d %T after-seek i=%d k=%q err=%v want=%q\n", id, h.Iter, i, k, err, h.Range[i])
+				}
 				if err != nil || string(k) != h.Range[i] || !bytes.Equal(v, h.Frozen.KV[h.Range[i]]) {
 					return fmt.Errorf("after SeekTo(first) pos %d: got %q=%s err=%v want %q", i, k, q(v), err, h.Range[i])
 				}
@@ -1397,8 +1422,11 @@ func (r *Runner) finish() {
 	if !r.resumeAll() {
 		return
 	}
-	for _, h := range r.handles {
-		r.closeHandle(h)
+	for len(r.handles) > 0 {
+		for id := range r.handles {
+			r.closeWithDependents(id)
+			break
+		}
 	}
 	if e.Coll != nil {
 		if err := e.CloseColl(); err != nil {
